@@ -365,6 +365,8 @@ pub(crate) mod verif_message {
     c05_diff!(c05_diff_n3_l24, 3, 24, 3, 6);
     //@ harness c05_diff_n3_l32 tier=quick shape="count=3 len=32"
     c05_diff!(c05_diff_n3_l32, 3, 32, 3, 6);
+    //@ harness c05_diff_n4_l44 tier=thorough shape="count=4 len=44 (four tags, 12 value bytes); every byte but the count word symbolic" timeout=900 required=no
+    c05_diff!(c05_diff_n4_l44, 4, 44, 4, 7);
     //@ harness c05_diff_n5_l7 tier=quick shape="count=5 len=7 (unaligned)"
     c05_diff!(c05_diff_n5_l7, 5, 7, 0, 4);
     //@ harness c05_diff_n1025_l16 tier=quick shape="count=1025 len=16"
